@@ -41,7 +41,9 @@ public:
 
   const Type& type(Context& ctx) const override { return v.type(); }
 
-  Value& value(Context& ctx) const override { return v; }
+  /* every evaluation yields a null of its own: an in-place member applied
+   * to the literal (null.concat(x)) must not change the literal */
+  Value& value(Context& ctx) const override;
 
   /* immutable */
   bool isConst() const override { return true; }
